@@ -37,8 +37,7 @@ let line l =
   | "djust" ->
     let rest = Stdlib.String.sub l (sp1 + 1) (Stdlib.String.length l - sp1 - 1) in
     let c = r_cfg (parse_sexp rest) in
-    if not (DegJustify.array_free_cfg c) then "(arrays)"
-    else if DegJustify.djust_cfg c then "(justified)" else "(unjustified)"
+    if DegJustify.djust_cfg c then "(justified)" else "(unjustified)"
   | "ssa" ->
     (* ssa (cfg ...) (dominfo (frontier ..) (children ..)) : the construction mirror *)
     let rest = Stdlib.String.sub l (sp1 + 1) (Stdlib.String.length l - sp1 - 1) in
